@@ -2083,14 +2083,22 @@ def symbolic_mode(query: Optional[SymbolicExpression] = None, mode: EQLMode = EQ
     :param query: Optional symbolic expression to also enter/exit as a context.
     """
     prev_mode = _symbolic_mode.get()
+    prev_stack = None
     try:
         if query is not None:
             query.__enter__(in_rule_mode=True)
+        elif mode is None:
+            # an evaluation switches symbolic construction off; the expressions its user code builds meanwhile (a
+            # predicate that runs a query of its own) do not belong to whatever query context the caller has open.
+            prev_stack = SymbolicExpression._symbolic_expression_stack_
+            SymbolicExpression._symbolic_expression_stack_ = []
         _set_symbolic_mode(mode)
         yield SymbolicExpression._current_parent_()
     finally:
         if query is not None:
             query.__exit__()
+        if prev_stack is not None:
+            SymbolicExpression._symbolic_expression_stack_ = prev_stack
         _set_symbolic_mode(prev_mode)
 
 
